@@ -59,6 +59,7 @@ class GenericSystemRegistry(
 
         #: Maps dimensionality (UnitsContainer) to Dimensionality (UnitsContainer)
         self._base_units_cache: dict[UnitsContainerT, UnitsContainerT] = {}
+        self._base_units_cache_owner: Any = None
 
         self._default_system_name: str | None = system
 
@@ -184,6 +185,12 @@ class GenericSystemRegistry(
     ):
         if system is None:
             system = self._default_system_name
+
+        # The memo belongs to the registry cache it was filled under: activating or
+        # leaving a context with unit redefinitions swaps self._cache.
+        if self._base_units_cache_owner is not self._cache:
+            self._base_units_cache = {}
+            self._base_units_cache_owner = self._cache
 
         # The cache is only done for check_nonmult=True and the current system.
         if (
